@@ -390,7 +390,13 @@ def project(df):
                          "lname": opt(r.get("label_atom_id")), "lresn": opt(r.get("label_comp_id")),
                          "lchain": opt(r.get("label_asym_id")), "lseq": num(r.get("label_seq_id"))})
         return {"fmt": "cif", "rows": rows}
-    raise lib.MachineryError(f"frame without a known format attribute: {fmt!r}")
+    # what the code under test returned is data, not a harness failure: the recorder logs it as an error of
+    # the step that produced the frame and the trace spec decides
+    raise UnprojectableFrame(f"frame without a known format attribute: {fmt!r}")
+
+
+class UnprojectableFrame(Exception):
+    """A frame returned by the code under test that has no known format (e.g. an empty frame without attrs)."""
 
 
 def text_lines(text):
